@@ -187,7 +187,8 @@ def run_c03(tier, t0):
         jobs = []
         # (a) objects built through the API, (b) load-then-edit, both with final save + snapshot
         corp_paths, corp_metas, lst = make_corpus(os.path.join(wd, "corpus"), 120 if tier == "quick" else 600, first=200000)
-        workloads = [("api", ["--profile", "c01", "--maxops", "36", "--dump-final", "--maxdesc", "255"], int(nh * 0.6)),
+        workloads = [("api", ["--profile", "c01", "--maxops", "36", "--dump-final", "--maxdesc", "255"], int(nh * 0.45)),
+                     ("api_refusals", ["--profile", "c10", "--maxops", "36", "--dump-final"], int(nh * 0.15)),
                      ("load_then_edit", ["--profile", "mixed", "--maxops", "14", "--dump-final", "--start", lst, "--maxdesc", "255"], int(nh * 0.3)),
                      ("gaps", ["--profile", "c06", "--maxops", "30", "--dump-final"], int(nh * 0.1))]
         first = 0
@@ -268,7 +269,7 @@ def run_c03(tier, t0):
 
         def rinfo(v):
             w = v.get("workload", {})
-            return dict(mode="hist" if w.get("profile") in ("api", "load_then_edit", "gaps") else "residue", flavour="asan", args=w.get("args", []))
+            return dict(mode="hist" if w.get("profile") in ("api", "api_refusals", "load_then_edit", "gaps") else "residue", flavour="asan", args=w.get("args", []))
         return C.finish("C03", tier, "exploration", cov, viols, t0, replay_info=rinfo,
                         assumptions=["the reference decoder implements the C3D specification (self-tested, agrees with the vendor files)"], inconclusive=inconc)
     finally:
